@@ -204,7 +204,13 @@ def execute(env, sc):
             payload = V
         data = ("\r\n".join(lines) + "\r\n\r\n").encode() + payload
         method = b"POST"
-    c = client.Conn(env.port, timeout=40)
+    try:
+        c = client.Conn(env.port, timeout=40)
+    except OSError:
+        env.icap.forget(ns)
+        if env.health(r):
+            r.inconclusive = "could not connect to the proxy"
+        return r
     try:
         c.send(data)
         m = c.read_response(method, timeout=40)
